@@ -25,9 +25,9 @@ TARGETS = [  # (file under src/, checks that should notice)
     ("cascade/executor/bridge.py", ["C06", "C05"]),
     ("cascade/executor/executor.py", ["C05", "C06"]),
     ("cascade/executor/data_server.py", ["C07"]),
-    ("cascade/executor/runner/entrypoint.py", ["C02", "C05"]),
+    ("cascade/executor/runner/entrypoint.py", ["C01", "C02", "C05"]),
     ("cascade/executor/runner/runner.py", ["C01", "C10"]),
-    ("cascade/executor/runner/memory.py", ["C01"]),
+    ("cascade/executor/runner/memory.py", ["C01", "C05"]),
     ("cascade/shm/dataset.py", ["C08", "C09"]),
     ("cascade/shm/disk.py", ["C09"]),
     ("cascade/shm/algorithms.py", ["C09", "C08"]),
